@@ -326,7 +326,7 @@ package graphsync
 //@   ensures [restart-extension] {C10} all(Transport.getRestartExtension, $2 == dataSender && $3 == channel)
 //@   ensures [consumes-iff-opened] {C16,C01} (result == nil) == (calls(dtChannel.open) == 1 && ret(dtChannel.open, 1) == nil) && (result == nil ==> spawned(Transport.executeGsRequest)) &&
 //@       (result != nil ==> !spawned(Transport.executeGsRequest))
-//@   requires ctx != nil -- API precondition (Go convention): contexts are never nil
+//@   requires ctx != nil && msg != nil -- API preconditions: contexts are never nil; the channel is opened with the request / response message that asks for it
 //@   acquires {C20} graphsync.Transport.dtChannelsLk, graphsync.dtChannel.lk
 //@ func (*graphsync.Transport).PauseChannel {C20}
 //@   ensures [routes-to-tracked-channel] {C16,C11} all(Transport.getDTChannel, $1 == chid) && (ret(Transport.getDTChannel, 1) != nil ==> result == ret(Transport.getDTChannel, 1) && never(dtChannel.pause)) &&
